@@ -266,6 +266,11 @@ class OdeModel:
             # ... and so is a block extracted into a plain FUNCTION of the module that is handed the lists (`_add_thermal(y, flag)`)
             if isinstance(f_, ast.Name) and f_.id not in _ANCHORS and (FILE, f_.id) in _pkg.functions and f_.id not in _local_names:
                 return _fold(_pkg.functions[(FILE, f_.id)]), None
+            # ... and a factory classmethod of a record class of the module called on the class (`self.Jacobian.from_dense(n, table)`)
+            if isinstance(f_, ast.Attribute) and isinstance(f_.value, (ast.Name, ast.Attribute)) and f_.attr not in _ANCHORS:
+                cm = _pkg.record_method(FILE, f_.attr, classmethod_of=ast.unparse(f_.value).split(".")[-1])
+                if cm is not None:
+                    return _fold(cm), f_.value
             return None
         _local_names = {n.id for n in ast.walk(self.func) if isinstance(n, ast.Name) and isinstance(n.ctx, ast.Store)} | {a.arg for a in self.func.args.args}
         func = inline_constants(_copy.deepcopy(self.func), pkg, "TemplateLoader")
